@@ -4,10 +4,14 @@
   (`Model/TClient.lean`, compared quantum by quantum with the real code): it loads the global epoch
   `cur`, publishes `sortDescDedup ([cur+1, cur] ++ pins)` as the vector of `cur+1`, stores `cur+1` as the
   global epoch and the vector's last element as the minimum.  Proved here, for every input:
-  the facts about those values that the property states.
+  the facts about those values that the property states.  For every interleaving of workers and the
+  coordinator (`Model/EpochProto.lean`, Props/EpochProtoThm.lean): `c16_protocol_count` (global epoch =
+  initial + completed forwards), `c16_protocol_step` (only the coordinator's store moves it, by one),
+  `c16_protocol_min_le_later_cur`, `c16_protocol_quiescent`.
 -/
 import CppUtil.Proofs.EpochSeq
 import CppUtil.Gen.Thread
+import CppUtil.Props.EpochProtoThm
 
 namespace CppUtil.Props
 open CppUtil CppUtil.Epoch
